@@ -127,6 +127,28 @@ fn ops(run: &Run) -> Vec<Op> {
             class(&r, |rd| format!("{:?}", rd.validation_state()))
         })});
     }
+    // fragmented BMFF reads (repository DASH fixtures: init segment + one media segment)
+    {
+        let init = sdk::fixture("dashinit.mp4");
+        let frag = sdk::fixture("dash1.m4s");
+        let (i1, f1) = (init.clone(), frag.clone());
+        v.push(Op { name: "read-fragment/dash".into(), f: Box::new(move |env| {
+            let r = Reader::from_shared_context(&env.ctx).with_fragment("video/mp4", Cursor::new(&i1), Cursor::new(&f1));
+            class(&r, |rd| format!("{:?}", rd.validation_state()))
+        })});
+        // file based variant over a list of fragment paths
+        let dir = std::env::temp_dir().join(format!("verif-c23-{}", std::process::id()));
+        let _ = std::fs::create_dir_all(&dir);
+        let ip = dir.join("dashinit.mp4");
+        let fp = dir.join("dash1.m4s");
+        if std::fs::write(&ip, &init).is_err() || std::fs::write(&fp, &frag).is_err() {
+            kit::ev::machinery("C23: cannot write fragment fixtures to the temp dir");
+        }
+        v.push(Op { name: "read-fragmented-files/dash".into(), f: Box::new(move |env| {
+            let r = Reader::from_shared_context(&env.ctx).with_fragmented_files(&ip, &vec![fp.clone()]);
+            class(&r, |rd| format!("{:?}", rd.validation_state()))
+        })});
+    }
     // placeholder + embeddable flow (data hash) on jpeg/png
     for name in ["jpeg", "png"] {
         let a = assets::by_name(name);
